@@ -198,11 +198,14 @@ def run_misc(case):
 
 
 # ------------------------------------------------------------------------------------------------ thread spawn
-def spawn_module(with_export=True):
+def spawn_module(with_export=True, imported=False):
     m = Module()
     T = m.type_index
     m.imports.append((b'wasi', b'thread-spawn', 'func', T((I32,), (I32,))))
-    m.memory = (1, 1, True)
+    if imported:
+        m.imports.append((b'env', b'memory', 'memory', (1, 1, True)))
+    else:
+        m.memory = (1, 1, True)
     m.exports.append((b'memory', 'memory', 0))
     # wasi_thread_start(tid, arg): idx = atomic add(counter@0, 1); store tid, arg at 16 + idx*8
     # slot = atomic add(@0, 1); record (tid, arg) at 16 + slot*8; then publish with atomic add(@4, 1) ("done" counter)
@@ -225,16 +228,16 @@ def spawn_module(with_export=True):
 _spawn_cache = {}
 
 
-def spawn_binary(with_export, tsan=False):
-    key = (with_export, tsan)
+def spawn_binary(with_export, tsan=False, imported=False):
+    key = (with_export, tsan, imported)
     if key in _spawn_cache and os.path.exists(_spawn_cache[key]):
         return _spawn_cache[key]
     d = cexec.new_dir('sp')
-    tr = cexec.translate(wasm.encode(spawn_module(with_export)), d, 'm', (), 'plain')
+    tr = cexec.translate(wasm.encode(spawn_module(with_export, imported)), d, 'm', (), 'plain')
     if tr.rc != 0:
         raise cexec.InfraError('translating the thread-spawn module failed: %s' % tr.err[-300:])
     cc = ['clang', '-O1', '-g', '-w'] + (['-fsanitize=thread'] if tsan else ['-fsanitize=address,undefined', '-fno-sanitize-recover=all'])
-    cmd = cc + W.WASI_DEFS + ['-I', os.path.join(cexec.REPO, 'w2c2'), '-I', os.path.join(cexec.REPO, 'futex'), '-I', d,
+    cmd = cc + (['-DVF_IMPORTED_MEMORY=1'] if imported else []) + W.WASI_DEFS + ['-I', os.path.join(cexec.REPO, 'w2c2'), '-I', os.path.join(cexec.REPO, 'futex'), '-I', d,
                               os.path.join(cexec.VERIF, 'c', 'spawn_driver.c'), os.path.join(d, 'm.c'),
                               os.path.join(cexec.REPO, 'wasi', 'wasi.c')] + \
         [os.path.join(cexec.REPO, 'futex', f) for f in cexec.FUTEX_SRCS] + ['-o', os.path.join(d, 'spawn'), '-lpthread', '-lm']
@@ -247,11 +250,11 @@ def spawn_binary(with_export, tsan=False):
 
 def case_spawn(ch):
     return {'kind': 'spawn', 'T': ch.pick((1, 2, 3, 4, 8)), 'K': ch.pick((1, 2, 4, 8, 16)), 'export': ch.below(5) != 0,
-            'tsan': False}
+            'tsan': False, 'imported': ch.below(3) == 0}
 
 
 def run_spawn(case):
-    exe = spawn_binary(case['export'], case.get('tsan', False))
+    exe = spawn_binary(case['export'], case.get('tsan', False), bool(case.get('imported')))
     env = dict(os.environ)
     env.update(cexec.ASAN_ENV)
     env['TSAN_OPTIONS'] = 'exitcode=96:halt_on_error=0:report_thread_leaks=0'
@@ -320,6 +323,8 @@ def classify(case):
             out.append('spawn>=8_concurrent')
         if not case['export']:
             out.append('spawn_missing_export')
+        if case.get('imported'):
+            out.append('spawn_imported_shared_memory')
     return out
 
 
